@@ -5,6 +5,7 @@
 From Coq Require Import List Arith ZArith Bool Sorted.
 Import ListNotations.
 Require Import Base.Corr Base.C11_Unique Model.C11_Topo Proofs.C11_TopoProofs Proofs.C11_EquivProofs Gen.C11Refdom Dyn.C11Tie.
+Require Import Model.C07_Query Gen.C11Wrap Dyn.C11Wrap.
 
 (* each facet / edge appears once, as a sorted tuple, the array is in strictly increasing lexicographic order *)
 Theorem C11_entities_unique_sorted :
@@ -407,3 +408,24 @@ Proof.
   - exists 1. split; [vm_compute; repeat constructor | reflexivity].
 Qed.
 Print Assumptions C11_f2t_exact_hypotheses_hold.
+
+(* ------------------------------------------------------------------ wrappers (pure plumbing), translated from the current source:
+   the option handling of Mesh.facets_satisfying / nodes_satisfying / elements_satisfying (gen_* regenerated by the ast translator),
+   composed with the boundary sets derived from the cell list, for ALL predicate sets and option values *)
+Theorem C11_wrap_satisfying_options :
+  forall (f2t : list (list Z)) (facets : list (list nat)) (pred : list nat) (bo ng : bool),
+    let bf := boundary_facets f2t in
+    let bn := boundary_nodes facets bf in
+    gen_facets_satisfying pred bf bn bo ng = (if bo then inter pred bf else pred) /\
+    gen_nodes_satisfying pred bf bn bo = (if bo then inter pred bn else pred) /\
+    gen_elements_satisfying pred = pred /\
+    (forall f, In f (gen_facets_satisfying pred bf bn bo ng) <->
+               In f pred /\ (bo = true -> f < length (nth 1 f2t []) /\ row1 f2t f = (-1)%Z)) /\
+    (forall v, In v (gen_nodes_satisfying pred bf bn bo) <->
+               In v pred /\ (bo = true -> exists f, (f < length (nth 1 f2t []) /\ row1 f2t f = (-1)%Z) /\ In v (nth f facets []))).
+Proof.
+  intros f2t facets pred bo ng bf bn.
+  split; [apply wrap11_facets|]. split; [apply wrap11_nodes|]. split; [apply wrap11_elements|].
+  split; [intros f; apply wrap11_facets_exact | intros v; apply wrap11_nodes_exact].
+Qed.
+Print Assumptions C11_wrap_satisfying_options.
